@@ -42,6 +42,7 @@ enum {
     C_FIX_ORDER_ONLY, C_OWN_ORDER_ONLY, C_OWN_NOT_ADMITTED, C_MUT_NOT_WF, C_MUT_NOT_APPLICABLE, C_PASS, C_FAIL, C_NSDECL_ONLY, C_XCHECK,
     C_KIND0 = 40,      // + mutation kind (M_KINDS <= 40); C_KIND0-1 = unmutated
     C_PARSER0 = 100,   // + parser index: admitted pairs per parser
+    C_NOTADM0 = 300,   // + parser index: own output not admitted by the parser's own type check
 };
 
 struct Work { int doc; int mut; int kind; };   // mut < 0: unmutated
@@ -55,12 +56,13 @@ struct Cfg {
     bool mutations = true;
     std::string only, docs;
     bool list = false;
+    bool showNotAdmitted = false;
 };
 
 static std::vector<vt::Codec> g_table;
 static std::vector<Doc> g_docs;          // regress + corpus
 static std::vector<Node> g_nodes;        // parsed corpus (same index)
-static size_t g_nRegress = 0;
+static size_t g_nRegress = 0, g_nTop = 0;
 static Cfg g_cfg;
 
 static void failLine(const std::string &key, const std::string &parser, const Doc &d, const std::string &mut, const QByteArray &in,
@@ -121,6 +123,7 @@ static void runItem(const Work &w, int itemIdx, int resumeParser, Status *st, in
     st->counters[C_ITEMS]++;
     QDomElement root = inDoc.documentElement();
     Summary sin = summarizeElement(root);
+    const QString ctxNs = root.namespaceURI();
 
     for (size_t p = 0; p < g_table.size(); p++) {
         if (int(p) <= resumeParser) continue;
@@ -147,7 +150,8 @@ static void runItem(const Work &w, int itemIdx, int resumeParser, Status *st, in
         st->phase = PH_ORACLE;
         armBudget(120);
         QDomDocument d1, d2;
-        Summary s1 = summarizeXml(o1, &d1);
+        QDomElement r1, r2;
+        Summary s1 = summarizeXml(o1, ctxNs, &d1, &r1);
         disarmBudget();
         st->counters[C_OUT_CHECKED]++;
         bool failed = false;
@@ -160,16 +164,19 @@ static void runItem(const Work &w, int itemIdx, int resumeParser, Status *st, in
             if (s1.canaries > sin.canaries) { failLine("C01:markup-injection:" + c.name, c.name, d, mutDesc, in, o1, {}, {}, "canary element in o1"); failed = true; }
             if (c.typeChecked) {
                 st->phase = PH_ADMIT;
-                bool again = timed(st, [&] { return c.admits(d1.documentElement()); });
-                if (!again) st->counters[C_OWN_NOT_ADMITTED]++;
+                bool again = timed(st, [&] { return c.admits(r1); });
+                if (!again) {
+                    st->counters[C_OWN_NOT_ADMITTED]++; st->counters[C_NOTADM0 + p]++;
+                    if (g_cfg.showNotAdmitted) printf("X own output not admitted: %s doc=%s mut=%s in=%s o1=%s\n", c.name.c_str(), d.id.c_str(), mutDesc.c_str(), escLine(in, 500).c_str(), escLine(o1, 500).c_str());
+                }
             }
             TestClient::resetIds();
             st->phase = PH_RUN2;
-            o2 = timed(st, [&] { return c.parseAndSerialize(d1.documentElement()); });
+            o2 = timed(st, [&] { return c.parseAndSerialize(r1); });
             st->counters[C_RUNS]++; st->counters[C_BYTES_OUT] += o2.size();
             st->phase = PH_ORACLE;
             armBudget(120);
-            if (!o2.isEmpty()) s2 = summarizeXml(o2, &d2);
+            if (!o2.isEmpty()) s2 = summarizeXml(o2, ctxNs, &d2, &r2);
             disarmBudget();
             st->counters[C_OUT_CHECKED]++;
             if (o2.isEmpty()) {
@@ -186,11 +193,11 @@ static void runItem(const Work &w, int itemIdx, int resumeParser, Status *st, in
                 }
                 TestClient::resetIds();
                 st->phase = PH_RUN3;
-                o3 = timed(st, [&] { return c.parseAndSerialize(d2.documentElement()); });
+                o3 = timed(st, [&] { return c.parseAndSerialize(r2); });
                 st->counters[C_RUNS]++; st->counters[C_BYTES_OUT] += o3.size();
                 st->phase = PH_ORACLE;
                 armBudget(120);
-                if (!o3.isEmpty()) s3 = summarizeXml(o3);
+                if (!o3.isEmpty()) s3 = summarizeXml(o3, ctxNs);
                 st->counters[C_OUT_CHECKED]++;
                 if (o3.isEmpty() || !s3.wellFormed) {
                     failLine(o3.isEmpty() ? "C02:not-fixpoint:" + c.name : "C02:output-not-wellformed:" + c.name, c.name, d, mutDesc, in, o1, o2, o3, "o3");
@@ -240,6 +247,7 @@ int main(int argc, char **argv)
         else if (s == "--per-doc") g_cfg.perDoc = atoi(next().c_str());
         else if (s == "--no-mutations") g_cfg.mutations = false;
         else if (s == "--list") g_cfg.list = true;
+        else if (s == "--show-not-admitted") g_cfg.showNotAdmitted = true;
     }
     if (g_cfg.workers < 1) g_cfg.workers = 1;
     if (g_cfg.workers > 32) g_cfg.workers = 32;
@@ -277,14 +285,40 @@ int main(int argc, char **argv)
     };
     add(regress); g_nRegress = g_docs.size();
     add(corpus);
+    // every distinct descendant element of a corpus document is a document of its own (id <doc>/<path>): this is what feeds the
+    // parsers of embedded elements (hash, thumbnail, file share, affiliation, ...) that never occur as a root in the test-suite
+    size_t nTop = g_docs.size();
+    {
+        std::set<std::pair<uint64_t, uint64_t>> seen;
+        for (size_t i = 0; i < nTop; i++) { Summary s = summarizeXml(g_docs[i].xml, QString()); seen.insert({ s.ordered.a, s.ordered.b }); }
+        std::function<void(const Node &, const std::string &, const std::string &)> rec = [&](const Node &n, const std::string &id, const std::string &path) {
+            int k = 0;
+            for (auto &c : n.kids) {
+                if (c.isText) continue;
+                std::string cp = path + "/" + std::to_string(k++);
+                QByteArray xml = render(c);
+                Summary s = summarizeXml(xml, QString());
+                if (s.wellFormed && seen.insert({ s.ordered.a, s.ordered.b }).second) {
+                    g_docs.push_back({ id + cp, xml });
+                    g_nodes.push_back(c);
+                }
+                rec(c, id, cp);
+            }
+        };
+        for (size_t i = g_nRegress; i < nTop; i++) { Node copy = g_nodes[i]; std::string id = g_docs[i].id; rec(copy, id, ""); }
+    }
+    g_nTop = nTop;
 
     // ---- work list: regress + every document unmutated, then the mutations (kinds dealt round-robin so every kind gets an equal share)
     std::vector<Work> work;
     for (size_t i = 0; i < g_docs.size(); i++) work.push_back({ int(i), -1, -1 });
     if (g_cfg.mutations) {
         int g = int(g_cfg.seed % M_KINDS);
+        // top-level documents get perDoc mutants each, extracted sub-elements perDoc/6 (at least 1)
+        int perSub = std::max(1, g_cfg.perDoc / 6);
         for (int m = 0; m < g_cfg.perDoc; m++)
-            for (size_t i = g_nRegress; i < g_docs.size(); i++) work.push_back({ int(i), m, (g++) % M_KINDS });
+            for (size_t i = g_nRegress; i < g_docs.size(); i++)
+                if (i < g_nTop || m < perSub) work.push_back({ int(i), m, (g++) % M_KINDS });
     }
     const int batchSize = 24;
     int nBatches = int((work.size() + batchSize - 1) / batchSize);
@@ -297,7 +331,7 @@ int main(int argc, char **argv)
 
     std::map<std::string, long> failCount;
     long suppressed = 0, crashes = 0;
-    int xLeft = 6;
+    int xLeft = g_cfg.showNotAdmitted ? 200 : 6;
     QElapsedTimer wall; wall.start();
 
     auto childFn = [&](int batch, int resumeItem, int resumeParser, Status *st) {
@@ -359,6 +393,8 @@ int main(int argc, char **argv)
     vh::stat("parsers_parse_only", parseOnly);
     vh::stat("documents", long(g_docs.size()));
     vh::stat("documents_regress", long(g_nRegress));
+    vh::stat("documents_top_level", long(g_nTop));
+    vh::stat("documents_sub_elements", long(g_docs.size() - g_nTop));
     vh::stat("corpus_rejected_by_qdom", rejected);
     vh::stat("work_items", long(work.size()));
     vh::stat("items_run", T[C_ITEMS]);
@@ -394,6 +430,7 @@ int main(int argc, char **argv)
     std::string neverNames;
     for (size_t p = 0; p < g_table.size(); p++) {
         vh::stat("admitted:" + g_table[p].name, T[C_PARSER0 + p]);
+        if (T[C_NOTADM0 + p]) vh::stat("own_output_not_admitted:" + g_table[p].name, T[C_NOTADM0 + p]);
         if (T[C_PARSER0 + p] == 0 && (g_cfg.only.empty() || g_table[p].name.find(g_cfg.only) != std::string::npos)) { never++; neverNames += g_table[p].name + " "; }
     }
     vh::stat("parsers_never_admitting", never);
